@@ -18,10 +18,10 @@
   pairs are now full theorems with `C19_regress_*` witnesses of the once-failing inputs):
     * fix 86c5631 : AveragePooling2D output positions, grouped Conv2D/Conv1D, depth_multiplier
     * fix 2562e1d : pe() on (Global)AveragePooling2D reads `pool_sum_accumulator`
-    * fix 90baf03 : estimate.py grouped QConv2D/QConv1D (was over-counted by `groups`)
-    * fix 0e51e85 : estimate.py QDepthwiseConv2D depth_multiplier
-    * fix a151cef : get_operation_count knows QAveragePooling2D (reported 0)
-    * fix fff3a88 : Dense(1) on (C, 1) — both files read the feature axis, not `np.max`
+    * fix 89f0481 : estimate.py grouped QConv2D/QConv1D (was over-counted by `groups`)
+    * fix e54ac88 : estimate.py QDepthwiseConv2D depth_multiplier
+    * fix 2d53185 : get_operation_count knows QAveragePooling2D (reported 0)
+    * fix 174b8b4 : Dense(1) on (C, 1) — both files read the feature axis, not `np.max`
   Where the code still violates the property the provable relation is kept as `_partial` and the
   violation is a `_counterexample` (reproduced on the real code by the harness) — both concern the
   separable convolutions:
@@ -132,7 +132,7 @@ example : classify "AveragePooling2D" = .avgPool := by decide
 example : classify "AvgPool2D" = .avgPool := by decide
 example : classify "QAveragePooling2D" = .avgPool := by decide
 
-/-- regression witness of fix a151cef: QAveragePooling2D(2) on 8×8×3 performs 192 accumulates
+/-- regression witness of fix 2d53185: QAveragePooling2D(2) on 8×8×3 performs 192 accumulates
     (the class was in no branch and reported 0). -/
 theorem C19_regress_qavg_pool :
     opCount "QAveragePooling2D" (avgPoolInfo .valid 8 8 2 2 2 2 3) = some 192 ∧
@@ -181,7 +181,7 @@ example : classify "QDense" = .dense := by decide
 example : classify "Dense" = .dense := by decide
 example : atMostOneBig ([5] ++ [1]) = true ∧ atMostOneBig ([1, 1] ++ [7]) = true := by decide
 
-/-- regression witness of fix fff3a88: Dense(1) applied to a `(batch, 5, 1)` tensor performs 5
+/-- regression witness of fix 174b8b4: Dense(1) applied to a `(batch, 5, 1)` tensor performs 5
     multiplications (one per row of the leading axis, feature axis of size 1); the unrepaired code
     took `np.max` = 5 for both sizes and reported 25. -/
 theorem C19_regress_dense_leading_axis :
@@ -210,7 +210,7 @@ theorem C19_count_merge (name : String) (hn : isMergeName name = true) (shape : 
 example : isMergeName "Add" = true := by decide
 example : isMergeName "Multiply" = true := by decide
 
-/-! ## estimate.py `number_of_operations` (fixes 90baf03, 0e51e85, fff3a88) -/
+/-! ## estimate.py `number_of_operations` (fixes 89f0481, e54ac88, 174b8b4) -/
 
 /-- estimate.py QConv2D, ANY number of groups. -/
 theorem C19_est_conv2d (p : Padding) (h w kh kw sh sw dh dw ci co g : ℕ)
@@ -220,7 +220,7 @@ theorem C19_est_conv2d (p : Padding) (h w kh kw sh sw dh dw ci co g : ℕ)
   simp only [estOps, conv2dInfo, macConv2d, conv2dNest_length,
     positions_length _ _ _ _ _ hsh hkh hdh, positions_length _ _ _ _ _ hsw hkw hdw]
 
-/-- regression witness of fix 90baf03: QConv2D(6, 3, groups=2) on 8×8×4 — estimate.py reported
+/-- regression witness of fix 89f0481: QConv2D(6, 3, groups=2) on 8×8×4 — estimate.py reported
     7776 = 2 · 3888. -/
 theorem C19_regress_est_grouped_conv2d :
     estOps .qconv2d (conv2dInfo .valid 8 8 3 3 1 1 1 1 4 6 2) = some 3888 ∧
@@ -251,7 +251,7 @@ theorem C19_est_depthwise (p : Padding) (h w kh kw sh sw dh dw ci dm : ℕ)
     positions_length _ _ _ _ _ hsh hkh hdh, positions_length _ _ _ _ _ hsw hkw hdw]
   congr 1; ring
 
-/-- regression witness of fix 0e51e85: QDepthwiseConv2D(3, depth_multiplier=2) on 8×8×3 —
+/-- regression witness of fix e54ac88: QDepthwiseConv2D(3, depth_multiplier=2) on 8×8×3 —
     estimate.py reported 972. -/
 theorem C19_regress_est_depthwise_multiplier :
     estOps .qdepthwise (depthwiseInfo .valid 8 8 3 3 1 1 1 1 3 2) = some 1944 ∧
@@ -275,7 +275,7 @@ theorem C19_est_dense_vector (k nIn units : ℕ) (hi : 2 ≤ nIn) (hu : 2 ≤ un
   rw [C19_est_dense _ _ _ (exactlyOneBig_ones_append k nIn hi) (exactlyOneBig_ones_append k units hu)]
   simp [macDenseAt, macDense, denseNestAt_length, denseNest_length, prodL_replicate_one]
 
-/-- regression witness of fix fff3a88 in estimate.py: QDense(1) on `(5, 1)` reported 25. -/
+/-- regression witness of fix 174b8b4 in estimate.py: QDense(1) on `(5, 1)` reported 25. -/
 theorem C19_regress_est_dense_leading_axis :
     estOps .qdense (denseInfo [5] 1 1) = some 5 ∧ macDenseAt [5] 1 1 = 5 := by
   refine ⟨by decide, ?_⟩
